@@ -20,9 +20,10 @@ import (
 func main() { hl.Main("C14", run) }
 
 type gen struct {
-	c *hl.Ctx
-	r *rand.Rand
-	n int
+	c    *hl.Ctx
+	r    *rand.Rand
+	n    int
+	flat bool // flat fragment: objects with label/shape/fill, deletions, imports only at the top of files
 }
 
 var shapes = []string{"circle", "square", "oval", "diamond", "hexagon", "cloud"}
@@ -81,6 +82,32 @@ func (g *gen) content(depth int, names *[]string) []sx.Stmt {
 	var out []sx.Stmt
 	shared := []string{"a", "b", "c"}
 	n := 1 + g.r.Intn(4)
+	if g.flat {
+		for i := 0; i < n+2; i++ {
+			name := g.pick(shared)
+			if g.r.Intn(3) == 0 {
+				name = g.fresh("n")
+			}
+			switch g.r.Intn(5) {
+			case 0:
+				out = append(out, sx.F(sx.U(name), sx.Val{}))
+			case 1:
+				out = append(out, sx.F(sx.U(name), sx.VS(lit("L"+fmt.Sprint(g.r.Intn(9))))))
+			case 2:
+				out = append(out, sx.F(sx.U(name, "shape"), sx.VS(lit(g.pick(shapes)))))
+			case 3:
+				out = append(out, sx.F(sx.U(name, "style", "fill"), sx.VS(lit(g.pick(colours)))))
+			default:
+				if g.r.Intn(2) == 0 {
+					out = append(out, sx.F(sx.U(name), sx.VNull()))
+					g.c.Count("flat:null")
+				} else {
+					out = append(out, sx.F(sx.U(name), sx.Val{}))
+				}
+			}
+		}
+		return out
+	}
 	for i := 0; i < n; i++ {
 		var name string
 		if g.r.Intn(3) == 0 {
@@ -165,6 +192,12 @@ func (g *gen) fileBody(p plan, i int, missing bool) []sx.Stmt {
 	for _, j := range p.imports[i] {
 		sp := g.spell(me, p.names[j])
 		form := g.r.Intn(4)
+		if g.flat {
+			if topUsed {
+				continue // one import per file, at the top
+			}
+			form = 0
+		}
 		if form == 0 && topUsed {
 			form = 1 + g.r.Intn(3) // only one import can be "at the top of the file"
 		}
@@ -194,6 +227,10 @@ func (g *gen) fileBody(p plan, i int, missing bool) []sx.Stmt {
 
 func (g *gen) prog() sx.Prog {
 	g.n = 0
+	g.flat = g.r.Intn(4) == 0
+	if g.flat {
+		g.c.Count("fragment:flat")
+	}
 	cyclic := g.r.Intn(4) == 0
 	if cyclic {
 		g.c.Count("set:cyclic")
